@@ -139,6 +139,29 @@ impl Sys for Product {
                 if self.w[1 - i].arena.is_some() && self.w[1 - i].sh.objs.iter().all(|o| !o.freed || o.dropped) {
                     crate::talloc::flush_freed();
                     self.w[i].cov.bump("dead_arena_memory_recycled");
+                    // an arena created only now (its root set may land on the dead set's address)
+                    // must refuse the dead arena's handles as well
+                    if verify && self.w[i].hs.iter().any(|h| h.is_some()) {
+                        let late = World::new(Scope { sets: 1, ..self.w[i].sc }, 768);
+                        let me = &self.w[i];
+                        let r = guarded("presentation to an arena created after the handle's arena died", || -> VResult {
+                            for (hi, h) in me.hs.iter().enumerate() {
+                                let Some(h) = h else { continue };
+                                late.arena().mutate(|_, root| -> VResult {
+                                    let s = root.sets[0].unwrap();
+                                    if s.contains(h) || s.try_fetch(h).is_ok() {
+                                        viol!("c20.foreign_handle_accepted", "an arena created after arena {i} was dropped accepted its handle {hi}");
+                                    }
+                                    Ok(())
+                                })?;
+                            }
+                            Ok(())
+                        })?;
+                        if let crate::wops::Caught::Done(r) = r {
+                            r?;
+                        }
+                        late.finish()?;
+                    }
                 }
             }
             K::DropH if self.w[i].arena.is_none() => {
